@@ -165,6 +165,20 @@ def _entry_calls(slot, bad, tags, fields, variant):
 
     yield "attribute-assignment+insert" + v, assign
 
+    def ctor_private_spelling(db):
+        # the same value under the name of the private attribute that holds it: not a documented keyword
+        if slot == "time":
+            p = Point(_time=bad)
+        elif slot == "measurement":
+            p = Point(_measurement=bad)
+        elif tags is not None:
+            p = Point(_tags=tags)
+        else:
+            p = Point(_fields=fields)
+        db.insert(p)
+
+    yield "Point(_private=)+insert" + v, ctor_private_spelling
+
     def assign_rejected_then_insert(db):
         # the assignment is refused (as it should be), the caller carries on with the point it had: what gets stored?
         p = Point(time=from_us(BASE_US), tags={"k": "a"}, fields={"x": 1})
